@@ -386,6 +386,7 @@ class Sys:
         self.mm = metamodel_from_str(grammar(rrel=rrel), **kw)
         self.mm.model_param_defs.add("p1", "first parameter")
         self.mm.model_param_defs.add("p2", "second parameter")
+        self.declared = {"p1", "p2", "project_root"}
         base = None
         if getattr(w, "inner_plan", None) and fam in ("plainuri", "fqnuri", "plainuri-sp", "fqnuri-sp"):
             inner = InnerPostponer(sp.PlainName() if fam in PLAIN else sp.FQN(), w, ctx)
@@ -633,14 +634,23 @@ def run(ctx):
     for opi in range(nops):
         F = t.pick(paths, "load-file") if t.chance(2, 3, "load-other") else w.main
         if fam in GR and getattr(w, "gr_relative", False):
-            params = {"project_root": ROOT}
+            # the project root as the caller spells it (not necessarily normalised): every model gets it verbatim
+            params = {"project_root": t.pick([ROOT, ROOT, ROOT + "/", ROOT + "/sub/..", "/sim/./w4"], "project-root-spelling")}
         else:
             params = {}
+        if "p3" not in sysm.declared and t.chance(1, 6, "declare-another-parameter-now"):
+            # parameter definitions may grow between loads (declarations and loads alternate)
+            sysm.mm.model_param_defs.add("p3", "declared after the first loads")
+            sysm.declared.add("p3")
+            ctx.sample["ops"].append(["declare", "p3"])
+            ctx.probe("parameter-declared-between-loads")
         if t.chance(1, 2, "with-params"):
             if t.chance(1, 2, "p1"):
                 params["p1"] = t.pick(["a", 1, "zz"], "p1v")
             if t.chance(1, 2, "p2"):
                 params["p2"] = t.pick([None, "b", 7], "p2v")
+            if "p3" in sysm.declared and t.chance(2, 3, "p3"):
+                params["p3"] = t.pick(["late", 0], "p3v")
         opk = t.draw(6, "op")  # 0-2 load, 3 undeclared, 4-5 corrupt cycle
         if prop == "C17":
             opk = min(opk, 2) if not t.chance(1, 8, "c17-other-op") else opk
@@ -795,7 +805,7 @@ def op_load(ctx, prop, sysm, w, F, params, cache, famtag, global_repo, as_str, s
 
 def op_undeclared(ctx, sysm, w, F, params, cache, famtag, t):
     bad = dict(params)
-    bad[t.pick(["p3", "P1", "project_roots", "debug_"], "bad-name")] = 1
+    bad[t.pick([n for n in ["p3", "P1", "project_roots", "debug_"] if n not in sysm.declared], "bad-name")] = 1
     sysm.opens.clear()
     am = sysm.all_models()
     before = list(am) if am is not None else None
